@@ -15,6 +15,10 @@ MODE = {'C13_MODE': ''}
 
 # the witness of fixes/C13-1.patch
 PROBE = 'L e0 F0 ; L e0 F0 ; L i0 ; K 0 i'
+# the witness of fixes/C13-2.patch: `K .. q` links with the interpreter interface and executes nothing;
+# the importer runs for the first time after a NEWER definition has been loaded
+PROBE2 = 'R 1 ; L e0 D0 ; L i0 ; K 0 q ; L e0 D0 ; K 0 i'
+QUIET = {'ok': False}    # are `K .. q` links generated?'
 
 
 # ------------------------------------------------------------------ generators
@@ -70,6 +74,8 @@ def gen_history(rng, nops, gen_share):
             mask = rng.choice([0, (1 << nnames) - 1, (1 << nnames) - 1, (1 << nnames) - 1, rng.randrange(1 << nnames),
                                rng.randrange(1 << nnames)])
             iface = rng.choice('gl') if rng.random() < gen_share else 'i'
+            if iface == 'i' and QUIET['ok'] and rng.random() < 0.3:
+                iface = 'q'      # interpreter interface, nothing executed until a later link
             if rng.random() < 0.08:
                 iface = 'n'      # MIR_link with a NULL set_interface: binds, keeps the queue
             ops.append('K %d %s' % (mask, iface))
@@ -89,6 +95,9 @@ EXH_ALPHABET2 = ['L f0 e0 F0', 'L e0 D0', 'L i0', 'L e0 P0', 'L F0 e0 i1', 'X 0 
 # a third one aimed at histories that go on after an error: rejected loads (also of a module that
 # exports something new besides the clashing function), failed links (resolver answers before the
 # failing import), retries, interface-less links
+# with fixes/C13-2.patch: links after which nothing is executed (the importer first runs later)
+EXH_ALPHABET4 = ['R 1', 'L e0 D0', 'L e0 F0 e1 D1', 'L i0', 'L i0 i1', 'X 0 2', 'X 1 3', 'K 0 q', 'K 0 i', 'K 0 l']
+
 EXH_ALPHABET3 = ['L e0 F0', 'L e1 D1 e0 B0', 'L i1 i0', 'L i0', 'X 0 2', 'R 1', 'K 0 i', 'K 2 i', 'K 2 n', 'K 3 g']
 
 
@@ -293,6 +302,28 @@ def select_mode(chk, impl, model):
     return False
 
 
+def select_quiet(chk, impl, model):
+    """fixes/C13-2.patch: does a module linked with the interpreter interface keep its link-time binding
+    of an address-taken import when it first runs only after a newer definition was loaded?"""
+    a = impl_line(impl, PROBE2)
+    b = model_line(model, PROBE2)
+    registered = any('C13-2' in t for t in chk.fixed)
+    chk.cov['late_first_run_probe'] = dict(history=PROBE2, impl=a, model=b)
+    QUIET['ok'] = full_eq(a, b)
+    if QUIET['ok']:
+        chk.cov['late_first_run'] = 'keeps the link-time binding (fixes/C13-2.patch is in): `K .. q` links are generated'
+    elif registered:
+        chk.finding('C13-2:interp-late-binding', dict(history=PROBE2, impl=a, model=b),
+                    'C13 a module linked with the interpreter interface but first run after a newer definition was '
+                    'loaded reads the NEWER definition through its import: %s gives %s' % (PROBE2, a))
+    else:
+        chk.notes.append('fixes/C13-2.patch not in this tree: the interpreter refreshes the address of an import used '
+                         'as `mov reg, import` when it first translates the function, so a module linked earlier sees a '
+                         'definition loaded later (witness %s -> %s); every accessor is executed right after each link, '
+                         'no `K .. q` links are generated' % (PROBE2, a))
+        chk.cov['late_first_run'] = 'tracks later loads until the first run (pinned tree): not explored further'
+
+
 def run(chk):
     quick = chk.tier == 'quick'
     r = chk.prove()
@@ -304,6 +335,7 @@ def run(chk):
                                 'gcc; mir-gen/mir-interp as the engines through which bindings are observed']
     if not select_mode(chk, impl, model):
         return
+    select_quiet(chk, impl, model)
     hs = []
     corpus = os.path.join(vlib.VERIF, 'corpus', 'c13.txt')
     if os.path.exists(corpus):
@@ -311,6 +343,8 @@ def run(chk):
     ncorpus = len(hs)
     ex = (exhaustive(4 if quick else 6) + exhaustive(3 if quick else 5, EXH_ALPHABET2)
           + exhaustive(4 if quick else 5, EXH_ALPHABET3))
+    if QUIET['ok']:
+        ex += [h for h in exhaustive(5 if quick else 6, EXH_ALPHABET4) if 'q' in h and h.startswith('R 1')]
     rng = chk.rng('hist')
     if quick:  # a seeded sample of the length-5/6 part of the exhaustive space
         for _ in range(12000):
